@@ -88,18 +88,28 @@ def run(ctx):
     ctx.floor("C18.R2", 1)
 
     # ---- R3 filter ---------------------------------------------------------------------------------------------
-    fl = [e for e in Q.calls(eng, "Iterator::filter") if "filter_messages" in e["fn"]]
+    # the surviving buckets: collect_messages(..).into_iter().filter(pred).collect()  or  buckets.retain(pred)
+    fm = [e for e in Q.calls(eng, AS + "::filter_messages")]
+    surv = fm[0]["result"] if len(fm) == 1 else None
+    fl = [e for e in Q.calls(eng, "Iterator::filter") if "filter_messages" in e["fn"]] + \
+         [e for e in Q.calls(eng, "Vec::<T, A>::retain") if "filter_messages" in e["fn"]]
     ok3 = False
     det = "no filter"
-    if len(fl) == 1 and fl[0]["result"] is not None and fl[0]["result"].op == "filtered":
-        pred = fl[0]["result"].args[1]
+    core = surv
+    while core is not None and core.op in ("collected", "iter", "cloned_iter"):
+        core = core.args[0]
+    pred = src = None
+    if core is not None and core.op == "filtered":
+        src, pred = core.args[0], core.args[1]
+    elif core is not None and core.op == "subset" and core.args[1] == "retain" and len(core.args) == 3:
+        src, pred = core.args[0], core.args[2]
+    if pred is not None:
         ith = fidx(ctx, AS, "threshold")
         from .common import pred_means
         lens = Q.find_all(pred, lambda t: t.op == "len" and Q.contains(t.args[0], lambda z: z.op == "elem"))
         thr = Q.find_all(pred, lambda t: t.op == "cast" and Q.path_of(t.args[0]) == "self.%d" % ith and t.args[2] == "usize")
         ok3 = len(lens) == 1 and len(thr) >= 1 and pred_means(pred, lens[0], "ge", thr[0])
         det = S(pred, 5)
-        src = fl[0]["argv"][0]
         ok3 = ok3 and Q.contains(src, lambda t: t.op == "map_values")
     ctx.add("C18.R3", AS + "::filter_messages#len-ge-threshold", ok3,
             "a bucket must survive iff bucket.len() >= threshold (over all buckets of the map); predicate %s" % det,
@@ -110,18 +120,21 @@ def run(ctx):
     chain = []
     t = ret
     okc = True
+    target = surv
     while t is not None and is_t(t):
+        if t is target:
+            chain.append("<surviving buckets>")
+            break
         chain.append(t.op)
         if t.op in ("collected", "iter", "cloned_iter"):
             t = t.args[0]
         elif t.op == "mapped":
             t = t.args[0]
-        elif t.op == "filtered":
-            break
         else:
             okc = False
             break
-    okc = okc and chain.count("mapped") == 2 and chain[-1] == "filtered" and fl and t is fl[0]["result"]
+    # any number of map stages (recover, unwrap, ... fused or not), nothing that can drop or duplicate a bucket
+    okc = okc and chain.count("mapped") >= 1 and target is not None and t is target
     ctx.add("C18.R4", root + "#one-output-per-surviving-bucket", bool(okc),
             "between the surviving buckets and the outputs only map/collect may occur (each bucket yields exactly one output); chain: %s" % chain, at, sample=chain)
     rm = [e for e in Q.calls(eng, AS + "::recover_measurements")]
@@ -149,7 +162,7 @@ def run(ctx):
     # ---- R5 schedule independence -------------------------------------------------------------------------------------
     F = ctx.F("A")
     pm = [e for e in Q.calls(eng, "rayon::iter::ParallelIterator::map") if e["frame"] == fr.key]
-    ok5 = len(pm) == 2
+    ok5 = len(pm) >= 1
     caps = []
     for e in pm:
         clo = e["args"][1]
@@ -206,8 +219,14 @@ def run(ctx):
     ctx.floor("C18.R7", 1)
 
     # ---- R9 / R8 payload reader ----------------------------------------------------------------------------------------------
-    rets = [ev for k, ev in eng.events.items() if k[1] == "ret" and ev["fn"].endswith("recover_measurements::{closure#2}")]
-    lb = [e for e in Q.calls(eng, "adss::load_bytes") if e["fn"].endswith("recover_measurements::{closure#2}")]
+    # the payload reader is the function (closure or helper) below recover_measurements that makes the two load_bytes calls
+    lb_all = [e for e in Q.calls(eng, "adss::load_bytes") if "recover_measurements" in e["frame"]]
+    by_frame = {}
+    for e in lb_all:
+        by_frame.setdefault(e["frame"], []).append(e)
+    rf = [fk for fk, es in by_frame.items() if len(es) == 2]
+    lb = by_frame[rf[0]] if len(rf) == 1 else []
+    rets = [ev for k, ev in eng.events.items() if k[1] == "ret" and len(rf) == 1 and ev["frame"] == rf[0]]
     if not rets or rets[0]["value"] is None or len(lb) != 2:
         ctx.add("C18.R9", AS + "::recover_measurements::{closure}#payload-reader", False,
                 "expected the payload-splitting closure with two load_bytes calls (found %d)" % len(lb), at)
